@@ -193,7 +193,9 @@ def c04(A):
             if st is not None and st[3] == c.idx and st[1] is False:
                 o.bad("not-idle-after-loss", "protocol is %s after connectionLost" % st[0], c.step_lost)
             cbs = [e for e in A.cbs if e["name"] == "onDisconnection" and e["conn"] == c.idx]
-            if A.cfg.ondisc and A.end is not None:
+            if not c.has_ondisc and cbs:
+                o.bad("ondisconnection-count/unset", "onDisconnection handler of another protocol called %d times for the loss of a connection that had none set" % len(cbs), c.step_lost)
+            if c.has_ondisc and A.end is not None:
                 if len(cbs) != 1:
                     o.bad("ondisconnection-count/%s" % ("none" if not cbs else "many"),
                           "onDisconnection called %d times for one loss" % len(cbs), c.step_lost)
